@@ -2374,7 +2374,7 @@ Proof.
     assert (X : (exists ret, In (EvCall x (r_cb (rec_enabled r true)) (r_ud (rec_enabled r true)) (r_user (rec_enabled r true)) KStanza (g_clock R2) ret)
                       (g_log (spec_loop sc KStanza sz (hids (rget KStanza R1)) R2))) \/
                 present (rget KStanza (spec_loop sc KStanza sz (hids (rget KStanza R1)) R2)) x = false).
-    { apply spec_loop_complete; auto.
+    { apply spec_loop_complete; [exact W2 | | | | exact F2 | | ].
       - apply (wf_nodup _ W1).
       - intros h Hh. apply in_hids_inv in Hh. destruct Hh as [q [Hq <-]].
         pose proof (wf_lt _ W1 _ _ Hq). assert (g_next R1 = g_next R) by apply g_next_r_enable. lia.
@@ -2383,4 +2383,282 @@ Proof.
       - rewrite C2. exact M. }
     rewrite C2 in X. exact X.
   - right. apply absent_spec_loop; auto. lia.
+Qed.
+
+(* --- one (callback, userdata) pair is kept once per list --- *)
+Definition key (r : hrec) : Z * Z := (r_cb r, r_ud r).
+Definition KeysOK (R : reg) : Prop := forall k, NoDup (map key (rget k R)).
+
+Lemma keys_rset : forall R k l, KeysOK R -> NoDup (map key l) -> KeysOK (rset k l R).
+Proof.
+  intros R k l H ND k'. destruct (kind_eq_dec k' k) as [->|N].
+  - rewrite rget_rset_same. auto.
+  - rewrite rget_rset_other; auto.
+Qed.
+
+Lemma keys_filter : forall (p : hrec -> bool) l, NoDup (map key l) -> NoDup (map key (filter p l)).
+Proof.
+  induction l as [|r l IH]; simpl; intro H; auto. inversion H; subst.
+  destruct (p r); simpl; auto. constructor; auto.
+  intro X. apply H2. apply in_map_iff in X. destruct X as [q [E Hq]]. apply filter_In in Hq.
+  apply in_map_iff. exists q. tauto.
+Qed.
+
+Lemma keys_map : forall (f : hrec -> hrec) l, (forall r, key (f r) = key r) -> map key (map f l) = map key l.
+Proof. intros. rewrite map_map. apply map_ext. auto. Qed.
+
+Lemma keys_same_lists : forall R R', (forall k, rget k R' = rget k R) -> KeysOK R -> KeysOK R'.
+Proof. intros R R' H K k. rewrite H. apply K. Qed.
+
+Lemma has_key_false_fresh : forall cb ud l, has_key cb ud l = false -> ~ In (cb, ud) (map key l).
+Proof.
+  intros cb ud l H X. apply in_map_iff in X. destruct X as [r [E Hr]]. unfold key in E. inversion E.
+  eapply has_key_false_notin; eauto.
+Qed.
+
+Lemma keys_r_add : forall at_head k cb ud user flt R, KeysOK R -> KeysOK (r_add at_head k cb ud user flt R).
+Proof.
+  intros at_head k cb ud user flt R K. unfold r_add. destruct (has_key cb ud (rget k R)) eqn:HK; auto.
+  apply keys_rset.
+  - eapply keys_same_lists; [|exact K]. intro k'. apply rget_rset_next.
+  - pose proof (has_key_false_fresh _ _ _ HK) as NF. destruct at_head.
+    + simpl. constructor; auto.
+    + rewrite map_app. simpl.
+      assert (X : forall (l : list (Z * Z)) a, NoDup l -> ~ In a l -> NoDup (l ++ [a])).
+      { induction l as [|b l IH]; simpl; intros a0 H N; [constructor; auto; constructor|].
+        inversion H; subst. constructor.
+        - intro Y. apply in_app_or in Y. destruct Y as [Y|[Y|[]]]; auto.
+        - apply IH; auto. }
+      apply X; auto.
+Qed.
+
+Lemma keys_action : forall a R, KeysOK R -> KeysOK (r_action a R).
+Proof.
+  intros a R K. destruct a; cbn [r_action]; try (apply keys_r_add; auto).
+  - unfold r_del. apply keys_rset; auto. apply keys_filter. apply K.
+  - destruct (g_conn R); auto.
+Qed.
+
+Lemma keys_actions : forall acts R, KeysOK R -> KeysOK (r_actions acts R).
+Proof. induction acts; simpl; auto. intros. apply IHacts. apply keys_action. auto. Qed.
+
+Lemma key_rec_stamp : forall k now r, key (rec_stamp k now r) = key r.
+Proof. intros. unfold rec_stamp. destruct k; auto; destruct (r_flt r); auto. Qed.
+
+Lemma keys_spec_loop : forall sc k sz snap R, KeysOK R -> KeysOK (spec_loop sc k sz snap R).
+Proof.
+  induction snap as [|x snap IH]; intros R K; cbn [spec_loop]; auto.
+  destruct (find_rec x (rget k R)) as [r|]; auto.
+  destruct (s_gate k R r && s_match k r sz (g_clock R)); auto.
+  destruct (sc _ (r_cb r) (r_ud r)) as [acts ret]. apply IH.
+  assert (K1 : KeysOK (r_update k x (rec_stamp k (g_clock R)) R)).
+  { unfold r_update. apply keys_rset; auto. rewrite keys_map; [apply K|].
+    intro q. destruct (Nat.eqb (hid q) x); auto. apply key_rec_stamp. }
+  match goal with |- KeysOK (if ret then ?A else _) => assert (K3 : KeysOK A) end.
+  { apply keys_actions. eapply keys_same_lists; [|exact K1]. intro k'; destruct k'; reflexivity. }
+  destruct ret; auto. unfold r_remove. apply keys_rset; auto. apply keys_filter. apply K3.
+Qed.
+
+Lemma keys_r_enable : forall k R, KeysOK R -> KeysOK (r_enable k R).
+Proof. intros. unfold r_enable. apply keys_rset; auto. rewrite keys_map; auto. Qed.
+
+Lemma keys_fire_timed : forall sc R, KeysOK R -> KeysOK (spec_fire_timed sc R).
+Proof.
+  intros. unfold spec_fire_timed. apply keys_spec_loop. destruct (g_conn R); auto.
+  apply keys_spec_loop. apply keys_r_enable. auto.
+Qed.
+
+Lemma keys_r_reset : forall u R, KeysOK R -> KeysOK (r_reset u R).
+Proof.
+  intros. unfold r_reset. apply keys_rset; auto. rewrite keys_map; auto.
+  intro r. destruct ((u && r_user r) || negb u); auto. apply key_rec_stamp.
+Qed.
+
+Lemma keys_op : forall sc o R, no_sysdel o -> KeysOK R -> KeysOK (spec_op sc o R).
+Proof.
+  intros sc o R NS K. destruct o; cbn [spec_op].
+  - apply keys_action; auto.
+  - unfold spec_fire_stanza. apply keys_spec_loop. destruct (st_id sz).
+    + apply keys_spec_loop. apply keys_r_enable. apply keys_r_enable. auto.
+    + apply keys_r_enable. auto.
+  - apply keys_fire_timed; auto.
+  - unfold spec_run_once.
+    assert (KF : KeysOK (r_flush R)).
+    { unfold r_flush. destruct (g_conn R); auto. }
+    destruct events; repeat apply keys_fire_timed; auto.
+  - try (eapply keys_same_lists; [|exact K]; intro k; destruct k; reflexivity).
+  - try (eapply keys_same_lists; [|exact K]; intro k; destruct k; reflexivity).
+  - try (eapply keys_same_lists; [|exact K]; intro k; destruct k; reflexivity).
+  - apply keys_r_reset; auto.
+  - exfalso. apply NS. reflexivity.
+  - eapply keys_same_lists with (R := r_reset false R); [|apply keys_r_reset; auto]. intro k; destruct k; reflexivity.
+Qed.
+
+Theorem duplicate_once_lemma : forall sc ops, Forall no_sysdel ops -> KeysOK (spec_run sc ops init_reg).
+Proof.
+  intros sc ops. assert (G : forall R, Forall no_sysdel ops -> KeysOK R -> KeysOK (spec_run sc ops R)).
+  { induction ops as [|o ops IH]; intros R NS K; cbn [spec_run]; auto.
+    inversion NS; subst. apply IH; auto. apply keys_op; auto. }
+  intro NS. apply G; auto. intro k. destruct k; simpl; constructor.
+Qed.
+
+Theorem duplicate_ignored_lemma : forall at_head k cb ud user flt R,
+  has_key cb ud (rget k R) = true -> r_add at_head k cb ud user flt R = R.
+Proof. intros. unfold r_add. rewrite H. reflexivity. Qed.
+
+(* --- deleting and returning false make a registration absent --- *)
+Theorem deleted_absent_lemma : forall R k cb r, WF R -> In r (rget k R) -> r_cb r = cb ->
+  present (rget k (r_del k cb R)) (hid r) = false.
+Proof.
+  intros R k cb r W Hr E. unfold r_del. rewrite rget_rset_same.
+  rewrite (present_filter_unique _ _ r (wf_nodup _ W k) Hr). rewrite E, Z.eqb_refl. reflexivity.
+Qed.
+
+Lemma event_eq_dec : forall a b : event, {a = b} + {a <> b}.
+Proof.
+  decide equality; try apply Bool.bool_dec; try apply Z.eq_dec; try apply Nat.eq_dec; try apply kind_eq_dec.
+  apply str_eq_dec.
+Qed.
+
+Lemma ret_false_absent_loop : forall sc k sz x cb ud u t snap R, WF R ->
+  In (EvCall x cb ud u k t false) (g_log (spec_loop sc k sz snap R)) ->
+  ~ In (EvCall x cb ud u k t false) (g_log R) ->
+  present (rget k (spec_loop sc k sz snap R)) x = false.
+Proof.
+  intros sc k sz x cb ud u t. set (e := EvCall x cb ud u k t false).
+  induction snap as [|y snap IH]; intros R W He Hn; cbn [spec_loop] in *; [contradiction|].
+  destruct (find_rec y (rget k R)) as [r|] eqn:F; [|apply IH; auto].
+  destruct (s_gate k R r && s_match k r sz (g_clock R)); [|apply IH; auto].
+  destruct (sc _ (r_cb r) (r_ud r)) as [acts ret].
+  set (R1 := r_update k y (rec_stamp k (g_clock R)) R) in *.
+  set (ev := EvCall y (r_cb r) (r_ud r) (r_user r) k (g_clock R1) ret) in *.
+  set (R2 := rset_log R1 (ev :: g_log R1)) in *.
+  assert (S1 : stable R R1) by (unfold R1, r_update; apply stable_rset). destruct S1 as (s1&s2&s3&s4).
+  pose proof (stable_actions acts R2) as (t1&t2&t3&t4).
+  assert (W2 : WF R2).
+  { apply wf_rset_log. apply wf_r_update; auto. intro. apply hid_rec_stamp. }
+  pose proof (wf_actions acts R2 W2) as W3.
+  set (R4 := if ret then r_actions acts R2 else r_remove k y (r_actions acts R2)) in *.
+  assert (W4 : WF R4) by (unfold R4; destruct ret; auto; apply wf_r_remove; auto).
+  assert (L4 : g_log R4 = ev :: g_log R).
+  { unfold R4. destruct ret.
+    - rewrite t1. unfold R2. simpl. rewrite s1. reflexivity.
+    - unfold r_remove.
+      destruct (g_fields_rset k (filter (fun r0 => negb (Nat.eqb (hid r0) y)) (rget k (r_actions acts R2))) (r_actions acts R2)) as (a&_).
+      rewrite a, t1. unfold R2. simpl. rewrite s1. reflexivity. }
+  destruct (event_eq_dec e ev) as [EQ|NE].
+  - (* this is the call: it returned false, so it was unlinked right after its actions *)
+    unfold e, ev in EQ. inversion EQ; subst y ret.
+    assert (P4 : present (rget k R4) x = false).
+    { unfold R4, r_remove. rewrite rget_rset_same.
+      destruct (present (filter (fun r0 => negb (Nat.eqb (hid r0) x)) (rget k (r_actions acts R2))) x) eqn:P; auto.
+      apply present_in in P. apply in_hids_inv in P. destruct P as [q [Hq Eq]]. apply filter_In in Hq.
+      destruct Hq as [_ Hq]. rewrite Eq, Nat.eqb_refl in Hq. discriminate. }
+    apply absent_spec_loop; auto.
+    pose proof (find_lt _ _ _ _ W F). pose proof (g_next_actions acts R2).
+    assert (g_next R2 = g_next R) by (unfold R2, R1, r_update; simpl; apply g_next_rset).
+    unfold R4, r_remove. rewrite g_next_rset. lia.
+  - apply IH; auto. rewrite L4. intros [X|X]; auto.
+Qed.
+
+(* --- the executable filter test is the documented one --- *)
+Lemma ostr_eqb_eq : forall a b, ostr_eqb a b = true <-> a = b.
+Proof.
+  intros [a|] [b|]; simpl; split; intro H; try discriminate; try reflexivity.
+  - apply str_eqb_eq in H. congruence.
+  - inversion H. apply str_eqb_refl.
+Qed.
+
+Theorem match_spec_lemma : forall ns name type sz,
+  s_match_stanza ns name type sz = true <-> stanza_filter_matches ns name type sz.
+Proof.
+  intros ns name type sz. unfold s_match_stanza, stanza_filter_matches.
+  rewrite !andb_true_iff.
+  assert (A : (match ns with None => true | Some _ => ostr_eqb (st_ns sz) ns || existsb (fun c => ostr_eqb c ns) (st_children sz) end) = true
+              <-> (ns = None \/ st_ns sz = ns \/ (ns <> None /\ In ns (st_children sz)))).
+  { destruct ns as [n|].
+    - rewrite orb_true_iff, ostr_eqb_eq, existsb_exists. split.
+      + intros [H|[c [Hc E]]]; auto. apply ostr_eqb_eq in E. subst c. right. right. split; [discriminate|auto].
+      + intros [H|[H|[_ H]]]; [discriminate|auto|]. right. exists (Some n). split; auto. apply ostr_eqb_eq. auto.
+    - split; auto. }
+  assert (B : forall flt v, (match flt with None => true | Some _ => ostr_eqb v flt end) = true <-> (flt = None \/ v = flt)).
+  { intros [f|] v.
+    - rewrite ostr_eqb_eq. split; auto. intros [H|H]; [discriminate|auto].
+    - split; auto. }
+  rewrite A, (B name), (B type). tauto.
+Qed.
+
+(* --- what last_stamp means --- *)
+Theorem add_timed_stamp_lemma : forall cb ud u p R, has_key cb ud (rget KTimed R) = false ->
+  rget KTimed (r_action (AAddTimed cb ud u p) R) = mkRec (g_next R) cb ud u false (FTimed p (g_clock R)) :: rget KTimed R.
+Proof. intros. cbn [r_action]. unfold r_add. rewrite H. reflexivity. Qed.
+
+Theorem reset_stamp_lemma : forall R r', In r' (rget KTimed (r_reset false R)) ->
+  exists r, In r (rget KTimed R) /\ r' = rec_stamp KTimed (g_clock R) r.
+Proof.
+  intros R r' H. unfold r_reset in H. rewrite rget_rset_same in H. apply in_map_iff in H.
+  destruct H as [r [E Hr]]. exists r. split; auto.
+Qed.
+
+(* --- corollaries in the form used by Properties_C11.v --- *)
+Theorem blind_lemma : forall sc sz R e, WF R ->
+  In e (g_log (spec_fire_stanza sc sz R)) -> ~ In e (g_log R) ->
+  exists x cb ud u k t ret, e = EvCall x cb ud u k t ret /\
+    (In x (hids (rget KStanza R)) \/ In x (id_snapshot sz R)) /\ (x < g_next R)%nat.
+Proof.
+  intros sc sz R e W He Hn. destruct (fire_sound_lemma sc sz R e He) as [H|H]; [contradiction|].
+  destruct H as (x&k&Rm&r&ret&E&Hs&_). exists x, (r_cb r), (r_ud r), (r_user r), k, (g_clock R), ret.
+  split; [exact E|]. split.
+  - destruct Hs as [[_ Hs]|[id [Hid [_ Hs]]]]; [left; exact Hs|]. right. unfold id_snapshot. rewrite Hid. exact Hs.
+  - assert (H : In x (hids (rget k R))).
+    { destruct Hs as [[-> Hs]|[id [_ [-> Hs]]]]; exact Hs. }
+    apply in_hids_inv in H. destruct H as [q [Hq <-]]. eapply (wf_lt _ W); eauto.
+Qed.
+
+Theorem timed_never_early_lemma : forall sc R e,
+  In e (g_log (spec_fire_timed sc R)) -> ~ In e (g_log R) ->
+  exists x k Rm r ret period last,
+    e = EvCall x (r_cb r) (r_ud r) (r_user r) k (g_clock R) ret /\
+    ((k = KTimed /\ g_conn R = true) \/ k = KGlobal) /\
+    find_rec x (rget k Rm) = Some r /\ r_flt r = FTimed period last /\
+    period <= elapsed last (g_clock R) /\
+    (0 <= last <= g_clock R -> g_clock R < two64 -> timed_due period last (g_clock R)) /\
+    (k = KTimed -> r_user r = true -> g_neg R = true).
+Proof.
+  intros sc R e He Hn. destruct (timed_sound_lemma sc R e He) as [H|H]; [contradiction|].
+  destruct H as (x&k&Rm&r&ret&p&l&E&Hk&F&Fl&Hd&G&N).
+  exists x, k, Rm, r, ret, p, l. repeat split; auto.
+  - intros H1 H2. unfold timed_due. rewrite (elapsed_nowrap l (g_clock R) H1 H2) in Hd. lia.
+  - intros -> U. unfold s_gate in G. rewrite U, N in G. simpl in G. destruct (g_neg R); auto.
+Qed.
+
+Theorem timed_connected_lemma : forall sc R e,
+  g_conn R = false -> In e (g_log (spec_fire_timed sc R)) -> ~ In e (g_log R) ->
+  exists x cb ud u t ret, e = EvCall x cb ud u KGlobal t ret.
+Proof.
+  intros sc R e HC He Hn. destruct (timed_sound_lemma sc R e He) as [H|H]; [contradiction|].
+  destruct H as (x&k&Rm&r&ret&p&l&E&[[_ Hk]|Hk]&_); [congruence|]. subst k. eauto 10.
+Qed.
+
+Theorem gated_lemma : forall sc sz R e,
+  g_neg R = false -> In e (g_log (spec_fire_stanza sc sz R)) -> ~ In e (g_log R) ->
+  exists x cb ud k t ret, e = EvCall x cb ud false k t ret.
+Proof.
+  intros sc sz R e HN He Hn. destruct (fire_sound_lemma sc sz R e He) as [H|H]; [contradiction|].
+  destruct H as (x&k&Rm&r&ret&E&Hs&F&G&M&N).
+  assert (U : r_user r = false).
+  { destruct (r_user r) eqn:U; auto. unfold s_gate in G. rewrite U, N, HN in G.
+    destruct Hs as [[-> _]|[id [_ [-> _]]]]; simpl in G; discriminate. }
+  rewrite U in E. eauto 10.
+Qed.
+
+Example hypotheses_satisfiable_ex :
+  Abs init_state init_reg /\ WF init_reg /\ others_only (fun _ _ _ => ([], true)) /\
+  run_ops (fun _ _ _ => ([], true)) 50
+    [OAct (AAddStanza 1 0 true None None None); OStanza (mkStanza (Some [105]) None None None [])] init_state
+    <> Fuel.
+Proof.
+  split; [exact abs_init | split; [exact wf_init | split]].
+  - intros lg cb ud a H. simpl in H. contradiction.
+  - vm_compute. discriminate.
 Qed.
